@@ -104,6 +104,16 @@ cb_sock(void * cookie, int s)
 	return (r->rc);
 }
 
+static int noop_ran;
+static int
+noop_cb(void * cookie)
+{
+
+	(void)cookie;
+	noop_ran = 1;
+	return (0);
+}
+
 static int
 kindof(const char * s)
 {
@@ -115,15 +125,6 @@ kindof(const char * s)
 	case 'E': return (FN_EOF);
 	default: return (FN_ERR);
 	}
-}
-
-static void
-arm_sockfail(int addr)
-{
-
-	/* the address after this one cannot even get a socket */
-	if (addr + 1 < fn_nplan && fn_plan[addr + 1].kind == 'S')
-		fn_sockfail_next = 1;
 }
 
 static void
@@ -188,11 +189,12 @@ exec_op(const char * l, int ctx)
 		char * tok, * copy, * save = NULL;
 		long timeo;
 		int n = 0, i;
-		copy = strdup(l);
+		copy = __real_malloc(strlen(l) + 1);
+		strcpy(copy, l);
 		tok = strtok_r(copy, " ", &save);	/* "connect" */
 		tok = strtok_r(NULL, " ", &save); a = tok ? atol(tok) : 0;
 		tok = strtok_r(NULL, " ", &save); timeo = tok ? atol(tok) : -1;
-		if (a < 1 || a > MAXREQ || reqs[a].state != 0) { free(copy); return; }
+		if (a < 1 || a > MAXREQ || reqs[a].state != 0) { __real_free(copy); return; }
 		r = &reqs[a];
 		fn_nplan = 0;
 		while ((tok = strtok_r(NULL, " ", &save)) != NULL && fn_nplan < 60) {
@@ -200,7 +202,7 @@ exec_op(const char * l, int ctx)
 			fn_plan[fn_nplan].t = (tok[1] == ':') ? atoll(tok + 2) : 0;
 			fn_nplan++;
 		}
-		free(copy);
+		__real_free(copy);
 		n = fn_nplan;
 		r->sas = __real_calloc((size_t)n + 1, sizeof(struct sock_addr *));
 		aw_enable(0);
@@ -214,8 +216,7 @@ exec_op(const char * l, int ctx)
 		}
 		aw_enable(1);
 		r->kind = 'c';
-		fn_connect_hook = arm_sockfail;
-		fn_sockfail_next = (n > 0 && fn_plan[0].kind == 'S');
+		fn_attempt = 0;
 		vt_begin("req_connect"); vt_int("req", a); vt_int("timeo", timeo);
 		fprintf(vt_out, ",\"plan\":[");
 		for (i = 0; i < n; i++)
@@ -254,6 +255,17 @@ exec_op(const char * l, int ctx)
 		vt_begin("run_call"); FK_CLOCK("c", fk_clock_us); vt_end();
 		rc = events_run();
 		vt_begin("run_ret"); vt_int("rc", rc); common(); vt_end();
+	} else if (strcmp(op, "runk") == 0 && ctx == 0) {
+		/* run with a zero-timeout kick timer, so that the call never blocks */
+		struct timeval tv0 = {0, 0};
+		int rc;
+		void * k = events_timer_register(noop_cb, NULL, &tv0);
+		vt_begin("run_call"); FK_CLOCK("c", fk_clock_us); vt_end();
+		rc = events_run();
+		vt_begin("run_ret"); vt_int("rc", rc); common(); vt_end();
+		if (k != NULL && !noop_ran)
+			events_timer_cancel(k);
+		noop_ran = 0;
 	} else if (strcmp(op, "drain") == 0 && ctx == 0) {
 		int i, j, rc = 0, pend;
 		for (i = 0; i < 2000; i++) {
@@ -305,6 +317,7 @@ run_child(void)
 			reqs[cur].ops[reqs[cur].nops++] = l;
 	}
 	fn_init();
+	fk_maxpolls = 3000;
 	for (i = 0; i < nfd; i++) {
 		int lfd = fk_open();
 		memset(&fn_fds[lfd], 0, sizeof(struct fn_fd));
